@@ -535,7 +535,7 @@ def main():
     rec.guard(run_witness, rec)
     rec.guard(run_kde_los_witness, rec)
     rec.guard(run_candidates, rec)
-    t0 = time.time(); budget = 25 if args.tier == "quick" else 320
+    t0 = time.process_time(); budget = 2 * 25 if args.tier == "quick" else 320
     combos = [(c, t) for t in TYPES for c in COSMOLOGIES]
     rounds = 3 if args.tier == "quick" else 40   # the first round covers all 56 (cosmology, type) pairs; then until the budget
     done = 0
@@ -546,8 +546,8 @@ def main():
             m = gen_case(rng, c, t, args.tier)
             rec.guard(run_case, rec, m)
             done += 1
-            if time.time() - t0 > budget: break
-        if time.time() - t0 > budget: break
+            if time.process_time() - t0 > budget: break
+        if time.process_time() - t0 > budget: break
     rec.tally("configurations", done)
     rec.write(args.out)
 
